@@ -330,6 +330,15 @@ def programs(n_yields):
         dict(name='shared-required-key-absent', family='shared-required', target=lambda: {'other': 2, 'more': 3}, spec=lambda: _SHARED_MATCH['required']),
         dict(name='shared-required-type-key-present', family='shared-required-type', target=lambda: {1: 'x', 'name': 'n'}, spec=lambda: _SHARED_MATCH['required-type']),
         dict(name='shared-required-type-key-absent', family='shared-required-type', target=lambda: {1: 'x', 2: 'y'}, spec=lambda: _SHARED_MATCH['required-type']),
+        # calls made with glom_debug=True overlapping calls made without it: each call's errors are wrapped, traced and caught by its own
+        # default= / Coalesce exactly as when it runs alone
+        dict(name='debug-call-succeeding', family='glom-debug', target=lambda: {'a': {'b': 1}}, spec=lambda: chain('a', 'b'), kw={'glom_debug': True}),
+        dict(name='debug-call-failing', family='glom-debug', target=lambda: {'a': 1}, spec=lambda: chain(T) + (lambda t: int('not a number'),), kw={'glom_debug': True}),
+        dict(name='plain-call-raising-valueerror', family='glom-debug', target=lambda: {'a': 1}, spec=lambda: chain(T) + (lambda t: int('x' * 3),)),
+        dict(name='plain-call-missing-path', family='glom-debug', target=lambda: {'a': {}}, spec=lambda: chain('a') + ('b.c',)),
+        dict(name='plain-call-with-default', family='glom-debug', target=lambda: {'a': {}}, spec=lambda: chain('a') + ('b.c',), kw={'default': 'DFLT'}),
+        dict(name='plain-call-inner-failure-absorbed', family='glom-debug', target=lambda: {'a': 1},
+             spec=lambda: chain(T) + (Coalesce((T, lambda t: G(t, 'zz.y')), default='absorbed'),)),
         # container literals in ARGUMENT position whose construction is interrupted by a yield point; the spec objects are
         # shared between threads (a memo keyed by id(spec) that outlives one call would hand one call another call's value)
         dict(name='shared-arg-default', target=lambda: {'v': threading.get_ident()}, spec=lambda: _shared_arg('default', n_yields)),
